@@ -98,6 +98,8 @@ def gen(seed: int, i: int, tier: str) -> dict:
             n = rng.choice([50, 50, 1, 2, 60])
             pre.append(rng.choice([f"{n};1;1;0;0;20.5\n", f"{n};255;3;0;0;55\n", f"{n};3;2;0;2;\n",
                                    f"{n};255;3;0;11;sk\n", G.wake_line(proto, rng.choice([1, 2]), 3)]))
+        if rng.random() < 0.3:
+            pre.append(rng.choice(["@reenter", f"0;255;3;0;2;{proto}\n", f"0;255;0;0;18;{proto}.1\n"]))
         if rng.random() < 0.7:
             for _ in range(rng.randint(1, 3)):
                 t = rng.choice([19, 19, 18, 13, 20, 24])
@@ -129,6 +131,9 @@ def run(scn) -> RunResult:
             })
             keys = []
             for line in scn.get("pre", []):
+                if line == "@reenter":
+                    w.reenter()
+                    continue
                 w.listen_step(line)
                 res.probes["stateful_prehistory"] += 1
             for k, (dest, cmd, t, buf, ack, p) in enumerate(scn["cases"]):
